@@ -123,6 +123,36 @@ var files = []genFile{
 		},
 	},
 	{
+		Name: "Env", Imports: []string{"PC.Go.Expand"}, Opens: []string{"PC.Go"},
+		Funcs: []*FuncSpec{
+			{
+				File: "src/loader/loader.go", Recv: "", Name: "loadProjectFromFile",
+				LeanName: "loadText",
+				LeanSig:  "(mapping : List Char → List Char) (yamlFile : List Char) : List Char",
+				OnlyVar:  "temp",
+				Final:    "temp",
+				Subst: map[string]string{
+					`strings.ReplaceAll(string(yamlFile), "$$", envEscaped)`: `replaceAll yamlFile "$$".toList envEscaped`,
+					`os.ExpandEnv(temp)`:                        `expand mapping temp`,
+					`strings.ReplaceAll(temp, envEscaped, "$")`: `replaceAll temp envEscaped "$".toList`,
+				},
+			},
+			{
+				File: "src/app/process.go", Recv: "Process", Name: "getProcessEnvironment",
+				LeanName: "processEnv",
+				LeanSig:  "(name : String) (replica : Nat) (inherited global own : List (String × String)) : List (String × String)",
+				Subst: map[string]string{
+					`[]string{}`:                             `([] : List (String × String))`,
+					`append(env, os.Environ()...)`:           `env ++ inherited`,
+					`append(env, p.globalEnv...)`:            `env ++ global`,
+					`append(env, p.procConf.Environment...)`: `env ++ own`,
+					`append(env, "PC_PROC_NAME="+p.procConf.Name, EnvReplicaNum+"="+strconv.Itoa(p.procConf.ReplicaNum),)`: `env ++ [("PC_PROC_NAME", name), ("PC_REPLICA_NUM", toString replica)]`,
+				},
+			},
+		},
+		Consts: []constSpec{{"src/loader/loader.go", "envEscaped", "envEscaped", "List Char"}, {"src/app/process.go", "EnvReplicaNum", "envReplicaNum", "String"}},
+	},
+	{
 		Name: "Stop", Imports: []string{"PC.Model.StopTypes"}, Opens: []string{"PC.Stop"},
 		Consts: []constSpec{
 			{"src/command/stopper_unix.go", "min_sig", "minSig", "Int"},
@@ -154,22 +184,30 @@ func constValue(root, file, name string) (string, error) {
 	if err != nil {
 		return "", err
 	}
-	for _, d := range f.Decls {
-		gd, ok := d.(*ast.GenDecl)
-		if !ok || gd.Tok != token.CONST {
-			continue
+	found, val := false, ""
+	var ferr error
+	ast.Inspect(f, func(n ast.Node) bool {
+		gd, ok := n.(*ast.GenDecl)
+		if !ok || gd.Tok != token.CONST || found {
+			return true
 		}
 		for _, s := range gd.Specs {
 			vs := s.(*ast.ValueSpec)
-			for i, n := range vs.Names {
-				if n.Name == name && i < len(vs.Values) {
+			for i, nm := range vs.Names {
+				if nm.Name == name && i < len(vs.Values) {
+					found = true
 					if bl, ok := vs.Values[i].(*ast.BasicLit); ok {
-						return bl.Value, nil
+						val = bl.Value
+					} else {
+						ferr = fmt.Errorf("const %s is not a literal", name)
 					}
-					return "", fmt.Errorf("const %s is not a literal", name)
 				}
 			}
 		}
+		return true
+	})
+	if found {
+		return val, ferr
 	}
 	return "", fmt.Errorf("const %s not found in %s", name, file)
 }
@@ -216,6 +254,9 @@ func main() {
 				continue
 			}
 			status[key] = "ok"
+			if c.LeanType == "List Char" {
+				v += ".toList"
+			}
 			fmt.Fprintf(&b, "/-- constant `%s` of `%s` -/\ndef %s : %s := %s\n\n", c.Name, c.File, c.LeanName, c.LeanType, v)
 		}
 		for _, fs := range gf.Funcs {
